@@ -94,6 +94,10 @@ if os.path.exists(mt):
     t = open(mt).read()
     m = re.search(r"Needs?:\s*(.*?)(?:\n[A-Z][a-z]+:|\Z)", t, re.S)
     meta["needs"] = " ".join(m.group(1).split()) if m else ""
-    meta["what"] = " ".join(t.split("\n")[0].split())
+    if not meta["needs"]:   # other layouts: the lines that talk about what it needs / when it manifests
+        ls = [l.strip(" -*\t") for l in t.splitlines() if re.search(r"\bneeds?\b|manifest|only (when|if)|requires", l, re.I)]
+        meta["needs"] = " ".join(" ".join(ls).split())[:600] or " ".join(t.split())[:600]
+    first = [l for l in t.splitlines() if l.strip()]
+    meta["what"] = " ".join((first[0] if first else "").split()) or " ".join(t.split())[:300]
 json.dump(meta, open(os.path.join(d, "meta.json"), "w"), indent=1)
 print("stored", d, "caught_by:", meta["caught_by"])
